@@ -281,6 +281,22 @@ Example C18_ex_leave_run :
   leave_run ex_round_state (fun _ => false) (values (c_nodes ex_round_state)) = ([], ["b"; "e"], true).
 Proof. exact ex_round_leave. Qed.
 
+(* which failed attempts are retried (pkg/websocket Dial: no response, or a response with status 408 429 500 502 503 504):
+   a listener never gives up on transient failures - for EVERY script of dial results without a non-retryable answer the loop
+   is still retrying or has connected, and it connects at the first success, after exactly that many dials; a non-retryable
+   answer (401, 403, 404 ...) ends it at once. Compared with the real Upstream.connect against a server failing with each
+   of 14 statuses. *)
+Theorem C18_transient_failures_are_retried :
+  forall rs, (forall r, In r rs -> dial_fatal r = false) ->
+  snd (connect_script rs) <> Some false /\
+  (forall pre post, rs = (pre ++ DRConnected :: post)%list -> ~ In DRConnected pre ->
+     connect_script rs = (S (List.length pre), Some true)).
+Proof. exact connect_script_transient. Qed.
+
+Theorem C18_fatal_answer_ends_loop :
+  forall r rest, dial_fatal r = true -> connect_script (r :: rest) = (1%nat, Some false).
+Proof. exact connect_script_fatal. Qed.
+
 Print Assumptions C18_shutdown_withdraws.
 Print Assumptions C18_advertises_what_it_holds.
 Print Assumptions C18_cancel_before_leave.
@@ -313,3 +329,5 @@ Print Assumptions C18_leave_all_ack_is_notified_of.
 Print Assumptions C18_leave_observation_legal.
 Print Assumptions C18_leave_ids_nodup.
 Print Assumptions C18_ex_leave_run.
+Print Assumptions C18_transient_failures_are_retried.
+Print Assumptions C18_fatal_answer_ends_loop.
